@@ -16,6 +16,10 @@ SETUP = ("/venv/bin/python -c 'import hypothesis' 2>/dev/null || "
 
 NOT_APPLICABLE = {}
 
+# property checks that are finished (quiet on 5 seeds, mutants killed,
+# reviewed); everything else is listed as not claimed yet
+READY = ["C05", "C07", "C12"]
+
 
 def main():
     with open(os.path.join(VERIF, "properties.jsonl")) as f:
@@ -26,7 +30,7 @@ def main():
         pid = p["id"]
         hits = glob.glob(os.path.join(VERIF, "vpbt", "props",
                                       pid.lower() + "_*.py"))
-        if not hits:
+        if not hits or pid not in READY:
             na.append(dict(property_id=pid, reason=NOT_APPLICABLE.get(
                 pid, "check not built yet (planned, see DESIGN.md section 5)")))
             continue
